@@ -427,4 +427,19 @@ theorem exclusive_no_clobber {F : Flags} {mode : String} {ovw : Bool}
 
 theorem read_leaves_disk (d : Disk) : h5openDisk d .r = d := by cases d <;> rfl
 
+/-! ### interruption by an exception -/
+
+theorem excState_nil (F : Flags) (rm : Bool) (d0 : Disk) (trace : List Op) (n k : Nat) :
+    excState F rm [] d0 trace n k = replay d0 (trace.take k) := by
+  unfold excState
+  simp only [unwindDisk]
+  split <;> rfl
+
+/-- without `close()`/`remove()` on the way out, the file an exception leaves behind is a
+    crash state -/
+theorem excState_crashState (F : Flags) (rm : Bool) (d0 : Disk) (trace : List Op) (n k : Nat)
+    (hk : 1 ≤ k) : CrashState d0 trace k (excState F rm [] d0 trace n k) := by
+  rw [excState_nil]
+  exact Or.inr ⟨k, hk, Nat.le_refl _, rfl⟩
+
 end OQuPyVerif.PTFile
